@@ -11,6 +11,7 @@ mod s_dhcp;
 mod s_acl;
 mod s_dns;
 mod rig;
+mod s_dnswire;
 
 /// Virtual wall clock: when >= 0, every CLOCK_REALTIME read in this process (Rust std and C
 /// libraries alike) returns this many seconds. The symbol overrides libc's at static link time.
@@ -59,6 +60,9 @@ fn run_case(line: &str) -> String {
         "ratelimit" => s_dns::ratelimit(args),
         "cache" => s_dns::cache(args),
         "route" => s_dns::route(args),
+        "dnsdec" => s_dnswire::dec(args),
+        "dnsenc" => s_dnswire::enc(args),
+        "inreply" => s_dnswire::inreply(args),
         _ => format!("bad-suite:{}", suite),
     }));
     match r {
